@@ -14,6 +14,6 @@ CONSTANTS
   Fix = {"repin_sole"}
   Mut = {}
   Loop = {}
-INVARIANTS TypeOK C13 EpochBound Once
-PROPERTIES Mono
+INVARIANTS TypeOK C13 EpochBound Once AbsEpochBound AbsFrozenPinned
+PROPERTIES Mono RefinesAbs
 CHECK_DEADLOCK FALSE
